@@ -387,3 +387,9 @@ func VerifH_gmenotify() {
 	verifReach("end")
 	verifObserve("conns", uint64(vNConns))
 }
+
+// native replay only (see rewrite.json): the monitor goroutine is not started, a state change never comes
+func verifGo(f func()) {}
+func verifConnWait(cc *grpc.ClientConn, ctx context.Context, s connectivity.State) bool {
+	return false
+}
